@@ -61,9 +61,16 @@ func (a *addresser) AddressesByIndex(index int) ([]IP, error) {
 		if !ok || am.Family != unix.AF_INET6 || am.Attributes == nil {
 			panicf("corerad: invalid rtnetlink message type: %+v", m)
 		}
-		ip, ok := netip.AddrFromSlice(am.Attributes.Address)
+		// For a point-to-point address the kernel reports the peer's address
+		// in IFA_ADDRESS and the interface's own address in IFA_LOCAL.
+		addr := am.Attributes.Address
+		if am.Attributes.Local != nil {
+			addr = am.Attributes.Local
+		}
+
+		ip, ok := netip.AddrFromSlice(addr)
 		if !ok || !ip.Is6() || ip.Is4In6() {
-			panicf("corerad: invalid IPv6 address from rtnetlink: %q", am.Attributes.Address)
+			panicf("corerad: invalid IPv6 address from rtnetlink: %q", addr)
 		}
 
 		// Note whether the kernel treats this address as valid forever since
